@@ -38,17 +38,16 @@ Definition simple_frame (ch : dtype_chain) (bits : Z) (vmin vmax : b64) (xs : li
 
 (* ---------------------------------------------------------------- SAR ADC *)
 
-Record sar_state := { acc : b64; rem : b64; ref : b64 }.
+(* The code is accumulated in the unsigned integer output type with Python integer bit weights
+   (exact), the remainder and the reference voltage are binary64. *)
+Record sar_state := { acc : Z; rem : b64; ref : b64 }.
 
-(* `2 ** (adc_bits - (i + 1))` is computed on numpy.int64 (i comes from np.arange), so it wraps:
-   for adc_bits = 64 the first digital value is -2^63, not 2^63. *)
-Definition int64_wrap (z : Z) : Z := (z + 2 ^ 63) mod 2 ^ 64 - 2 ^ 63.
-Definition digital_value (bits i : Z) : Z := int64_wrap (2 ^ (bits - (i + 1))).
+Definition digital_value (bits i : Z) : Z := 2 ^ (bits - (i + 1)).
 
 (* one pass of the loop body for bit index i (0 = most significant) *)
 Definition sar_step (bits : Z) (s : sar_state) (i : Z) : sar_state :=
   let hit := bge (rem s) (ref s) in
-  {| acc := if hit then badd (acc s) (bofZ (digital_value bits i)) else acc s;
+  {| acc := if hit then acc s + digital_value bits i else acc s;
      rem := if hit then bsub (rem s) (ref s) else rem s;
      ref := bdiv (ref s) (bofZ 2) |}.
 
@@ -58,12 +57,13 @@ Fixpoint sar_loop (bits : Z) (n : nat) (i : Z) (s : sar_state) : sar_state :=
   | S n' => sar_loop bits n' (i + 1) (sar_step bits s i)
   end.
 
-Definition sar_acc (bits : Z) (vmax x : b64) : b64 :=
+Definition sar_acc (bits : Z) (vmax x : b64) : Z :=
   acc (sar_loop bits (Z.to_nat bits) 0
-         {| acc := pzero; rem := x; ref := bdiv vmax (bofZ 2) |}).
+         {| acc := 0; rem := x; ref := bdiv vmax (bofZ 2) |}).
 
+(* additions in an unsigned type of w bits wrap modulo 2^w; the theorems show no wrap happens *)
 Definition sar_code (w bits : Z) (vmax x : b64) : option Z :=
-  cast_unsigned w (btruncZ (sar_acc bits vmax x)).
+  cast_unsigned w (Some (sar_acc bits vmax x)).
 
 Definition sar_frame (ch : dtype_chain) (bits : Z) (vmax : b64) (xs : list b64)
   : option (Z * list (option Z)) :=
@@ -72,13 +72,13 @@ Definition sar_frame (ch : dtype_chain) (bits : Z) (vmax : b64) (xs : list b64)
   | Some w => Some (w, map (sar_code w bits vmax) xs)
   end.
 
-(* The noisy variant with all strengths and noises 0:  ref += 0.0 ; mask ; acc += dv*mask ;
+(* The noisy variant with all strengths and noises 0:  ref += 0.0 ; mask ; acc += dv*mask (integers) ;
    rem -= ref*mask ; ref /= 2.  Written out as the code does it (multiplications by the 0/1 mask). *)
 Definition sar0_step (bits : Z) (s : sar_state) (i : Z) : sar_state :=
   let r := badd (ref s) pzero in
   let hit := bge (rem s) r in
   let mask := if hit then bofZ 1 else pzero in
-  {| acc := badd (acc s) (bmul (bofZ (digital_value bits i)) mask);
+  {| acc := acc s + digital_value bits i * (if hit then 1 else 0);
      rem := bsub (rem s) (bmul r mask);
      ref := bdiv r (bofZ 2) |}.
 
@@ -89,8 +89,8 @@ Fixpoint sar0_loop (bits : Z) (n : nat) (i : Z) (s : sar_state) : sar_state :=
   end.
 
 Definition sar0_code (w bits : Z) (vmax x : b64) : option Z :=
-  cast_unsigned w (btruncZ (acc (sar0_loop bits (Z.to_nat bits) 0
-         {| acc := pzero; rem := x; ref := bdiv vmax (bofZ 2) |}))).
+  cast_unsigned w (Some (acc (sar0_loop bits (Z.to_nat bits) 0
+         {| acc := 0; rem := x; ref := bdiv vmax (bofZ 2) |}))).
 
 Definition sar0_frame (ch : dtype_chain) (bits : Z) (vmax : b64) (xs : list b64)
   : option (Z * list (option Z)) :=
